@@ -99,6 +99,12 @@ fn rejected_candidates(quick: bool) -> Vec<String> {
     out
 }
 
+/// text inside a meta block (`#(`, and the blocks `enum` opens) is executed while the source is
+/// being read: what it printed before the failure is not an effect of *unread* text
+fn runs_while_read(src: &str) -> bool {
+    src.contains("#(") || src.split_whitespace().any(|w| w == "enum")
+}
+
 // sections that may legitimately differ between "never submitted" and "submitted and rejected"
 const BOOKKEEPING: [&str; 3] = ["sources_len", "meter", "running"];
 
@@ -212,7 +218,11 @@ pub fn run(cfg: &Cfg) -> i32 {
                 let s0 = rebuild(&base, hist, &sources);
                 let d0 = s0.verif_dump();
                 let hist_txt: Vec<J> = hist.iter().map(|(i, st)| js(format!("{:?}: {}", st, sources[*i]))).collect();
-                for rsrc in &rejected {
+                for (rix, rsrc) in rejected.iter().enumerate() {
+                    // thorough tier: the deepest states get every 5th rejected source, shallower ones all
+                    if !quick && hist.len() >= 3 && rix % 5 != 0 {
+                        continue;
+                    }
                     for rstyle in STYLES {
                         let mut x = s0.clone();
                         let r = match guarded(|| match rstyle {
@@ -236,7 +246,7 @@ pub fn run(cfg: &Cfg) -> i32 {
                         };
                         bump(&mut local, &err_kind(&e).split('(').next().unwrap_or("").to_string());
                         let d1 = x.verif_dump();
-                        let bk: Vec<&str> = if rsrc.contains("#(") { vec!["sources_len", "meter", "running", "stdout"] } else { BOOKKEEPING.to_vec() };
+                        let bk: Vec<&str> = if runs_while_read(rsrc) { vec!["sources_len", "meter", "running", "stdout"] } else { BOOKKEEPING.to_vec() };
                         if project(&d1, &bk) == project(&d0, &bk) {
                             n_identical.fetch_add(1, Ordering::Relaxed);
                             continue;
@@ -260,7 +270,7 @@ pub fn run(cfg: &Cfg) -> i32 {
                         for ((k, a), (_, b)) in n0.iter().zip(n1.iter()) {
                             // text inside a meta block is executed while the source is being read: what
                             // it printed before the failure is not an effect of *unread* text
-                            if k == "printed" && rsrc.contains("#(") {
+                            if k == "printed" && runs_while_read(rsrc) {
                                 continue;
                             }
                             if a != b {
@@ -430,7 +440,7 @@ pub fn run(cfg: &Cfg) -> i32 {
                             };
                             match (run(true), run(false)) {
                                 (Ok(mut a), Ok(b)) => {
-                                    if r.contains("#(") {
+                                    if runs_while_read(r) {
                                         // text inside a meta block runs while it is read: its output is legitimate
                                         a.2 = b.2.clone();
                                     }
